@@ -17,6 +17,7 @@ params (all optional):
     header      dict overriding file_identifier / library_name / library_hash_name / module_name (latin-1 str)
 """
 import random
+import zlib
 
 from .. import idb
 
@@ -78,6 +79,7 @@ class _Gen:
         self.dup = p.get("dup_names", 0.15)
         self.highbits = p.get("highbits", 0.0)
         self.uid = 0
+        self.salt = b"%08x" % (zlib.crc32(repr(seed).encode()) & 0xffffffff)   # keeps forced-unique names distinct across databases
         self.used = {}
 
     # -- primitive choices
@@ -103,7 +105,7 @@ class _Gen:
             if unique:
                 if n in pool or n == b"":
                     self.uid += 1
-                    n = n + b"#%d" % self.uid
+                    n = n + b"#%d.%s" % (self.uid, self.salt)
             if not unique or n not in pool:
                 break
         pool.append(n)
